@@ -265,6 +265,10 @@ func buildLayout(sc *Scn, runDirPrefix string) intoto.Layout {
 	case "ca-root-unparsable":
 		k := caKey("-----BEGIN CERTIFICATE-----\nQUJDREVGR0g=\n-----END CERTIFICATE-----\n", "")
 		l.RootCas = map[string]intoto.Key{k.KeyID: k}
+	case "ca-root-pem-public-key-as-certificate":
+		// the certificate field holds a well-formed PEM block - of a public key, not of a certificate
+		k := caKey(pk("rsa2048").Pub.KeyVal.Public, "")
+		l.RootCas = map[string]intoto.Key{k.KeyID: k}
 	case "ca-root-public-key-only":
 		k := caKey("", pk(pool[0]).Pub.KeyVal.Public)
 		k.KeyType, k.Scheme = pk(pool[0]).Pub.KeyType, pk(pool[0]).Pub.Scheme
@@ -314,6 +318,10 @@ func buildLayout(sc *Scn, runDirPrefix string) intoto.Layout {
 			}
 			x.ExpectedMaterials = [][]string{mm, {"DISALLOW", pre + "stamp.txt"}, {"ALLOW", "*"}}
 			x.ExpectedProducts = [][]string{mm, {"DISALLOW", pre + "stamp.txt"}, {"ALLOW", "*"}}
+		}
+		if sc.Defect == "unclean-disallow-pattern-product-added" {
+			x.ExpectedMaterials = [][]string{m, {"ALLOW", "./*.link"}, {"DISALLOW", "./*"}}
+			x.ExpectedProducts = [][]string{m, {"ALLOW", "./*.link"}, {"DISALLOW", "./*"}}
 		}
 		if sc.Defect == "star-class-pattern-product-added" {
 			x.ExpectedMaterials = [][]string{m, {"DISALLOW", pre + "*.py[co]"}, {"ALLOW", "*"}}
@@ -650,7 +658,7 @@ var defects = map[string][]string{
 		"verifier-plus-one", "verifier-minus-one", "verifier-empty", "signed-by-others", "link-instead-of-layout",
 		"alter-step-unknown-member", "alter-step-drop-threshold", "alter-inspection-unknown-member", "alter-key-unknown-member",
 		"alter-dsse-payload-type-case", "alter-dsse-payload-type-params", "alter-signed-repeated-keys-member", "alter-signed-repeated-readme-member",
-		"ca-root-unparsable", "ca-root-public-key-only", "ca-intermediate-unparsable", "ca-root-valid-unused",
+		"ca-root-pem-public-key-as-certificate", "ca-root-unparsable", "ca-root-public-key-only", "ca-intermediate-unparsable", "ca-root-valid-unused",
 		"dup-signature-missing-key", "keyid-collision-history",
 		"case-variant-member-evil-first-dsse", "case-variant-member-evil-last-dsse", "case-variant-member-evil-first-legacy", "case-variant-member-evil-last-legacy",
 		"verifier-key-malformed-legacy", "verifier-key-malformed-dsse", "alter-payload-strip-sig-padding", "verifier-key-cert-only-forged"},
@@ -667,7 +675,7 @@ var defects = map[string][]string{
 	"c08": {"sub-same-step-name-upper-link-missing", "sub-same-step-name-both-present", "sub-wide-9", "sub-defective-beside-good-link-large", "sub-insp-named-like-first-step", "sub-insp-named-like-last-step", "sub-defective-beside-good-link", "sub-ok", "sub-ok", "sub-badsig", "sub-expired", "sub-missing-link", "sub-rule-violation", "sub-unauthorised", "sub-nested", "sub-nested-defect", "sub-summary-mismatch", "sub-summary-mismatch-other-algorithm"},
 	"c10": {"history-same-params", "history-diff-params", "history-no-params", "history-mixed", "mixed-cert-key", "mixed-cert-key", "mixed-cert-key-unsorted", "summary-byproducts", "direct-unclean",
 		"history-empty-command-argument", "history-dir-relative-inspection-fails-midway", "mixed-cert-key-dir", "history-layout-keys-share-short-id", "history-four-links-two-groups", "history-dir-inspection-relative-command", "history-multi-alg", "history-multi-alg-mismatch", "history-whitespace-rule", "history-param-value-has-marker", "mixed-cert-key-marker-constraint", "history-threshold-zero"},
-	"c09": {"star-class-pattern-product-added", "dangling-symlink-added", "step-rule-fails-no-inspection-may-run", "symlinked-dir-before-tampered-product", "symlinked-dir-untouched", "product-crlf-rewritten", "product-crlf-rewritten-normalised", "large-product-tampered-tail", "large-product-untouched", "product-added-ignorable-name-0", "product-added-ignorable-name-1", "product-added-ignorable-name-2", "product-added-ignorable-name-3",
+	"c09": {"unclean-disallow-pattern-product-added", "star-class-pattern-product-added", "dangling-symlink-added", "step-rule-fails-no-inspection-may-run", "symlinked-dir-before-tampered-product", "symlinked-dir-untouched", "product-crlf-rewritten", "product-crlf-rewritten-normalised", "large-product-tampered-tail", "large-product-untouched", "product-added-ignorable-name-0", "product-added-ignorable-name-1", "product-added-ignorable-name-2", "product-added-ignorable-name-3",
 		"product-added-ignorable-name-4", "product-added-ignorable-name-5", "product-added-ignorable-name-6", "product-added-ignorable-name-7",
 		"product-added-ignorable-name-8", "product-added-ignorable-name-9", "product-added-ignorable-name-10", "case-variant-rule-earlier", "product-modified-backslash-decoy", "sha512-chain-product-modified", "escaped-pattern-product-modified", "escaped-pattern-none", "insp-rewrite-same-mtime", "product-all-removed", "require-after-consume", "none", "insp-fail", "insp-fail-255", "insp-missing", "insp-empty", "product-modified", "product-added", "product-removed",
 		"insp-touch-allowed", "insp-touch-disallowed", "three-inspections", "second-fails"},
@@ -1251,6 +1259,12 @@ func genScenario(r *lib.Rng, focus string, idx int) *Scn {
 			if d == "symlinked-dir-before-tampered-product" {
 				sc.Expect = "reject"
 			}
+		case "unclean-disallow-pattern-product-added":
+			// the inspection's closing rule is written "DISALLOW ./*" (patterns are cleaned like paths: it means DISALLOW *)
+			sc.Insps = []InspSpec{{Name: "insp0", Kind: "log"}}
+			sc.Entry = "plain"
+			sc.ExtraFinal = map[string]string{"backdoor.sh": "#!/bin/sh\n"}
+			sc.Expect = "reject"
 		case "star-class-pattern-product-added":
 			// the inspection forbids byte-code files with a pattern in which a star is followed by a character class
 			sc.Insps = []InspSpec{{Name: "insp0", Kind: "log"}}
